@@ -193,19 +193,19 @@ def configs(tier, seed):
             if src == "c04" and c["type"] == "pasha" and c["brackets"] > 1:
                 continue
             c2 = dict(c)
-            c2["max_states"] = 2500 if tier == "quick" else 30000
+            c2["max_states"] = 2500 if tier == "quick" else 7000
             out.append(("A", dict(src=src, cfg=c2, max_states=c2["max_states"])))
     for ki, kind in enumerate(["pbt", "dehb", "median", "moasha", "rea", "fifo-random", "fifo-grid", "hb-rush-stop", "hb-rush-prom", "hb-cost"]):
         for W in (1, 2, 3):
             if tier == "quick" and W != 2:
                 continue
-            out.append(("A", dict(src="generic", max_states=2500 if tier == "quick" else 30000,
+            out.append(("A", dict(src="generic", max_states=2500 if tier == "quick" else 7000,
                                   cfg=dict(kind=kind, seed=seed, R=3, W=W, T=4 if kind != "rea" else 5, F=0, mode="min"))))
     # long single-worker histories (no branching): DEHB beyond its first bracket (mutation / crossover / selection),
     # PBT and regularised evolution with a full population
     for kind, T in (("dehb", 14), ("pbt", 10), ("rea", 12), ("shb", 12)):
         for W in (1, 2):
-            out.append(("A", dict(src="generic", max_states=1500 if tier == "quick" else 20000,
+            out.append(("A", dict(src="generic", max_states=1500 if tier == "quick" else 7000,
                                   cfg=dict(kind=kind, seed=seed, R=4 if kind in ("dehb", "shb") else 3, W=W, T=T, F=0, mode="min"))))
     for ki, kind in enumerate(["fifo-random", "hb-stopping", "hb-promotion", "median", "shb", "pbt"]):
         for pi, prof in enumerate(tunerx.PROFILES):
